@@ -403,6 +403,14 @@ where
         let len = storage.value::<u64>(storage_index)?;
         let data_len = storage.value_size(storage_index)?;
         let capacity = data_len / T::storage_len();
+        let stored = data_len.saturating_sub(u64::serialized_size_static()) / T::storage_len();
+
+        if stored < len {
+            return Err(DbError::collections(
+                DbErrorType::OutOfBounds,
+                format!("DbVec length ({len}) exceeds the stored elements ({stored})"),
+            ));
+        }
 
         Ok(DbVec {
             phantom_data: PhantomData,
